@@ -26,7 +26,7 @@ condition under which the named root cause in jedi/api/refactoring is reached.  
                                                         (fixed by proposed_fixes/c06-3-extract-keep-unary-operator.diff)
   extract-range-regroups-operator-chain   explicit range = operands k.. (k >= 1) of a left-associative chain
         `a - b - c`, `a // b % c`: documented behaviour of `_remove_unwanted_expression_nodes`, regroups
-  extract-function-assignment-target / -range-ends-at-statement-text / -until-next-line-start /
+  extract-function-defining-name / -range-ends-at-statement-text / -until-next-line-start /
   extract-function-crlf-blank-line   statement ranges: see known_findings.d/C06.json
 """
 import re
@@ -322,13 +322,12 @@ def _statement_range(mod, req):
     return n, sel
 
 
-def extract_function_assignment_target(mod, req):
+def extract_function_defining_name(mod, req):
     sel = _selection(mod, req)
     if sel is None:
         return False
     ls = _leaves_in(mod, *sel)
-    return len(ls) == 1 and ls[0].type == 'name' and ls[0].is_definition() \
-        and ls[0].get_definition() is not None and ls[0].get_definition().type == 'expr_stmt'
+    return len(ls) == 1 and ls[0].type == 'name' and ls[0].is_definition()
 
 
 def extract_function_range_ends_at_statement_text(mod, req):
@@ -396,8 +395,8 @@ RULES = [
     ('inline-definition-first-on-semicolon-line', ('inline', 'extract_variable+inline'),
      lambda m, r, ls: inline_definition_first_on_semicolon_line(m, r),
      {'oracle-compile': ('IndentationError',), 'oracle-roundtrip': ('IndentationError',)}),
-    ('extract-function-assignment-target', ('extract_function',),
-     lambda m, r, ls: extract_function_assignment_target(m, r), {'oracle-compile': ('SyntaxError',)}),
+    ('extract-function-defining-name', ('extract_function',),
+     lambda m, r, ls: extract_function_defining_name(m, r), {'oracle-compile': ('SyntaxError',)}),
     ('extract-range-drops-unary-operator', ('extract_variable', 'extract_function'),
      lambda m, r, ls: extract_range_drops_unary_operator(m, r),
      {'oracle-compile': ('SyntaxError',), 'oracle-equiv': ANY}),
